@@ -2,7 +2,9 @@
     MAC is an arbitrary function: the routers recompute the same function, no cryptographic
     hypothesis is needed for these positive results. *)
 From Sci Require Import Gen.NetworkTables Network.Model Network.Spec Network.Proofs Network.Proofs_C01
-     Network.Proofs_Deliver Network.Proofs_Combined Network.Proofs_Peer Network.Proofs_Reverse.
+     Network.Proofs_Deliver Network.Proofs_Combined Network.Proofs_Peer Network.Proofs_Reverse
+     Network.Proofs_PeerRev.
+From Sci Require Network.Proofs_Joinable Combine.Model Combine.SpecRules Combine.Proofs Combine.ProofsGraph Combine.ProofsC04.
 Local Open Scope N_scope.
 
 (** The code that extends a beacon ([SignedPathSegment::add_entry] = [AsEntry::update_macs]
@@ -90,8 +92,8 @@ Print Assumptions combined_path_delivers_partial.
     is up; the valid crossover pairs are symmetric) -- so the reference router delivers it
     to the sender.  Only the forward conditions are assumed.  Any path description with
     authentic MAC-chained segments of at least two hops, in particular (previous theorem) the
-    assembled ones.  PARTIAL with respect to the property sentence: peering paths are not
-    covered by this theorem. *)
+    assembled ones.  PARTIAL with respect to the property sentence only in its shape: the
+    reply over a PEERING path is the subject of [reverse_delivers_peering] below. *)
 Theorem reverse_delivers_partial :
   forall (key : Type) (mac : key -> N -> N -> N -> N -> N -> N) (t : topology key) (now : N)
          (g : tseg) (rest : list tseg) d r dst pk',
@@ -129,7 +131,9 @@ Print Assumptions assembled_paths_are_authentic.
     chained at every egress except after the peering hop) and the topology carries the path
     ([p1_topo], [p4_topo]: usable hop fields, ASes holding the keys, up links between
     consecutive interfaces, the peering link between the two peering hop fields), the
-    reference router delivers the packet at its destination.  Any lengths, any MAC function. *)
+    reference router delivers the packet at its destination, and the packet that arrives is
+    given exactly (pointers at the last hop field, each segment's SegID = the value its last
+    hop field was verified with).  Any lengths, any MAC function. *)
 Theorem peering_path_delivers :
   forall (key : Type) (mac : key -> N -> N -> N -> N -> N -> N) (t : topology key) (now : N)
          (L0 : list hopd) (dq : hopd) (r1 : list hopd) (s0 ts0 s1 ts1 dst : N),
@@ -145,7 +149,10 @@ Theorem peering_path_delivers :
     end ->
     delivers mac t now (length L0 + 1 + length r1) (d_ia (hd dq L0)) 0
              (ppkt dst 0 0 (length L0) (S (length r1)) s0 ts0 s1 ts1 (hops_of L0 ++ hops_of (dq :: r1)))
-             dst (fun _ => True).
+             dst
+             (fun pk' => pk' = ppkt dst 1 (length L0 + length r1) (length L0) (S (length r1))
+                                    (last (betas_of L0) 0) ts0 (last (betas_of (dq :: r1)) 0) ts1
+                                    (hops_of L0 ++ hops_of (dq :: r1))).
 Proof. intros. apply peering_delivers; assumption. Qed.
 Print Assumptions peering_path_delivers.
 
@@ -167,14 +174,16 @@ Print Assumptions peer_uses_are_authentic.
 (** Closing the loop with the SDK's own router: after the repairs recorded in
     known_findings/C13.json, the simulated router ([sdk_sim], the statement-by-statement model
     of pocketscion's SpecRoutingLogic) delivers every such assembled path too -- shortcuts
-    included -- at its destination (consequence of the previous theorem and of C13's
-    completeness theorem).  Peering paths it does not carry (finding C13-peering-unsupported). *)
+    included -- at its destination, provided the path has at most 64 hop fields in all (the
+    SDK does not advance the 6-bit CurrHF pointer past 63) (consequence of the previous theorem
+    and of C13's completeness theorem).  Peering paths it does not carry (finding C13-peering-unsupported). *)
 Theorem combined_paths_delivered_by_sdk_router :
   forall (key : Type) (mac : key -> N -> N -> N -> N -> N -> N) (t : topology key) (now dst : N)
          (b : buse) (bs : list buse) (pk : packet),
     wf_topo t = true ->
     Forall (fun b => (S (bu_k b) < length (bu_us b))%nat) (b :: bs) ->
     assemble dst (map (use_of mac) (b :: bs)) = Some pk ->
+    (length (p_hops (k_path pk)) <= 64)%nat ->
     exists d r, g_hops (tseg_of mac b) = d :: r /\
       (route_topo t now (tseg_of mac b) d r (map (tseg_of mac) bs) dst ->
        exists tr pk' pre il,
@@ -182,3 +191,93 @@ Theorem combined_paths_delivered_by_sdk_router :
          /\ tr = pre ++ [mkStep dst il ALocal]).
 Proof. intros. apply combined_delivers_sdk; assumption. Qed.
 Print Assumptions combined_paths_delivered_by_sdk_router.
+
+(** Last sentence of the property.  The lookup plan ([ListSegmentPlan::new], modelled as the
+    finite table it is, regenerated from list_segment_plan.rs) requests every kind of segment
+    -- up, core, down -- that a route between the two ASes can need by the SCION combination
+    rules ([Spec.needed_lookups]), in each of its 18 cases (same ISD with one core / several
+    cores, different ISDs; core / non-core source; core / non-core / any-core destination).
+    Finite: by case analysis. *)
+Theorem plan_covers :
+  forall ctx srck dstk p c,
+    In ctx [0; 1; 2] -> In srck [0; 1] -> In dstk [0; 1; 2] ->
+    In p (needed_lookups ctx srck dstk) -> In c p ->
+    exists r, Proofs_Joinable.plan_row ctx srck dstk = Some r /\ Proofs_Joinable.requested r c = true.
+Proof. exact Proofs_Joinable.plan_covers_lemma. Qed.
+Print Assumptions plan_covers.
+
+(** Whenever the segments handed to the combinator can be joined into a route from [src] to
+    [dst] ([Joinable]: on one non-core segment; over one core segment; up and down through a
+    common AS, core or shortcut; up-core; core-down; up-core-down), that route is a valid
+    combination of the combinator's specification, the search graph contains its chain of
+    edges, and -- by the Combine area's [combine_complete] -- the offered list is NOT EMPTY as
+    soon as that chain's path encodes and is loop-free.  Stated over the Combine area's
+    segment type (the combinator's input); the executable counterpart on the real registry
+    and combinator is the h_joinable oracle ([Spec.joinable]).
+    PARTIAL: (1) "the joined route's path encodes (at most 63 hop fields per segment, 984
+    bytes) and visits no AS twice" is a hypothesis (a looping join is dropped by the
+    combinator; that some OTHER join is then loop-free is not proved); (2) joins across a
+    peering link are not in [Joinable]. *)
+Theorem joinable_offered_partial :
+  forall Hid Hfp ord_v ord_e src dst cores non_cores out,
+    Combine.Proofs.order_ok ord_v ord_e -> Combine.ProofsGraph.wf_input cores non_cores ->
+    Combine.Model.combine_paths Hid Hfp ord_v ord_e src dst cores non_cores = Ok out -> src <> dst ->
+    Proofs_Joinable.Joinable cores non_cores src dst ->
+    exists uses l,
+      Combine.SpecRules.ValidCombination cores non_cores src dst uses
+      /\ Forall2 (Combine.ProofsGraph.EdgeOfUse Hid) l uses
+      /\ forall p, Combine.Model.sol_path Hfp (Combine.Model.mkSol l (Combine.Model.VAS dst) (Combine.ProofsC04.edges_weight l)) = Ok (Some p) ->
+                   Combine.Model.has_loops p = Ok false -> out <> [].
+Proof. exact Proofs_Joinable.joinable_offered_lemma. Qed.
+Print Assumptions joinable_offered_partial.
+
+(** [Joinable] is decidable by the computation the harness oracle performs (filter the up
+    segments of the source and the down segments of the destination, look for a common AS or
+    a joining core segment): whenever that computation says "joinable", the conclusion of
+    [joinable_offered_partial] holds. *)
+Theorem joinable_decided_offered_partial :
+  forall Hid Hfp ord_v ord_e src dst cores non_cores out,
+    Combine.Proofs.order_ok ord_v ord_e -> Combine.ProofsGraph.wf_input cores non_cores ->
+    Combine.Model.combine_paths Hid Hfp ord_v ord_e src dst cores non_cores = Ok out -> src <> dst ->
+    Proofs_Joinable.cjoin cores non_cores src dst = true ->
+    exists uses l,
+      Combine.SpecRules.ValidCombination cores non_cores src dst uses
+      /\ Forall2 (Combine.ProofsGraph.EdgeOfUse Hid) l uses
+      /\ forall p, Combine.Model.sol_path Hfp (Combine.Model.mkSol l (Combine.Model.VAS dst) (Combine.ProofsC04.edges_weight l)) = Ok (Some p) ->
+                   Combine.Model.has_loops p = Ok false -> out <> [].
+Proof.
+  intros. eapply Proofs_Joinable.joinable_offered_lemma; eauto.
+  apply Proofs_Joinable.cjoin_joinable; assumption.
+Qed.
+Print Assumptions joinable_decided_offered_partial.
+
+(** The reply over a peering path (segments as the specification beacons them): under the
+    forward conditions of [peering_path_delivers] alone, in a topology whose interfaces
+    identify their link, the reversed arrived packet -- again a peering path: the second
+    segment read backwards up to its peering hop field, then the first one from its peering
+    hop field down -- is delivered by the reference router to the sender.  The SegIDs the
+    forward traversal left behind are exactly the initial values the way back needs
+    (chaining and restoring are xor-inverse, the peering hop fields keep the value of their
+    neighbours), and every link leads back. *)
+Theorem reverse_delivers_peering :
+  forall (key : Type) (mac : key -> N -> N -> N -> N -> N -> N) (t : topology key) (now : N)
+         (L0 : list hopd) (dq : hopd) (r1 : list hopd) (s0 ts0 s1 ts1 dst : N),
+    links_wf t -> wf_topo t = true ->
+    Forall (fun d => auth mac d ts0) L0 ->
+    betas_of L0 = carried_rev s0 (hops_of L0) true true ->
+    p1_topo t now ts0 L0 dq ->
+    Forall (fun d => auth mac d ts1) (dq :: r1) ->
+    betas_of (dq :: r1) = carried_cons s1 (hops_of (dq :: r1)) true ->
+    hopok t now dq ts1 ->
+    match r1 with
+    | [] => d_ia dq = dst
+    | e :: r' => plink t (d_ia dq) (h_eg (d_hop dq)) (d_ia e) (h_in (d_hop e)) /\ p4_topo t now ts1 dst e r'
+    end ->
+    let src := d_ia (hd dq L0) in
+    let arrived := ppkt dst 1 (length L0 + length r1) (length L0) (S (length r1))
+                        (last (betas_of L0) 0) ts0 (last (betas_of (dq :: r1)) 0) ts1
+                        (hops_of L0 ++ hops_of (dq :: r1)) in
+    exists fuel first_as,
+      delivers mac t now fuel first_as 0 (mkPkt src (path_reverse (k_path arrived))) src (fun _ => True).
+Proof. intros. eapply peering_reverse_delivers; eassumption. Qed.
+Print Assumptions reverse_delivers_peering.
